@@ -3,6 +3,7 @@ import LadimProofs.C10
 import LadimModel.IBM.Memory
 import LadimModel.IBM.Chemicals
 import LadimModel.Grid.Neighbours
+import LadimModel.IBM.Swim
 /-!
 # C11 — land-collision handling moves only stuck or coastal particles, within their cell
 -/
@@ -240,5 +241,65 @@ theorem strategy_moves_only_flagged [Field α] [LinearOrder α] [IsStrictOrdered
   unfold Chemicals.update Chemicals.horizontal
   simp only [hs, hh]
   cases c.lifespan <;> simp
+
+/-! ## directed swimming (saithe `spread`, lunar eel `horizontal_advect`) -/
+
+section swim
+open Ladim.Swim
+variable {β : Type}
+
+/-- a directed saithe larva ends where it was, or at a position that is inside the grid and at sea -/
+theorem saithe_stays_or_valid (ingrid atsea : β → β → Bool) (x0 y0 x y : β) :
+    let p := saitheStep ingrid atsea x0 y0 x y
+    (p.1 = x0 ∧ p.2.1 = y0) ∨ (p.1 = x ∧ p.2.1 = y ∧ ingrid x y = true ∧ atsea x y = true) := by
+  unfold saitheStep
+  by_cases hi : ingrid x y = true
+  · by_cases hs : atsea x y = true
+    · right; simp [hi, hs]
+    · left; simp [hi, hs]
+  · left
+    by_cases hs : atsea x0 y0 = true <;> simp [hi, hs]
+
+/-- it is retired exactly when the candidate position is outside the grid (and then it does not move) -/
+theorem saithe_dies_iff_outside (ingrid atsea : β → β → Bool) (x0 y0 x y : β) :
+    (saitheStep ingrid atsea x0 y0 x y).2.2 = ingrid x y := rfl
+
+theorem saithe_outside_stays (ingrid atsea : β → β → Bool) (x0 y0 x y : β) (h : ingrid x y = false) :
+    (saitheStep ingrid atsea x0 y0 x y).1 = x0 ∧ (saitheStep ingrid atsea x0 y0 x y).2.1 = y0 := by
+  unfold saitheStep
+  by_cases hs : atsea x0 y0 = true <;> simp [h, hs]
+
+/-- never onto land, never outside: if the larva was at sea and inside the grid it still is -/
+theorem saithe_never_onto_land_or_out (ingrid atsea : β → β → Bool) (x0 y0 x y : β)
+    (h0 : ingrid x0 y0 = true ∧ atsea x0 y0 = true) :
+    let p := saitheStep ingrid atsea x0 y0 x y
+    ingrid p.1 p.2.1 = true ∧ atsea p.1 p.2.1 = true := by
+  have h := saithe_stays_or_valid ingrid atsea x0 y0 x y
+  rcases h with ⟨h1, h2⟩ | ⟨h1, h2, h3, h4⟩
+  · simp only [h1, h2]; exact h0
+  · simp only [h1, h2]; exact ⟨h3, h4⟩
+
+/-- the eel moves exactly when the candidate is inside the grid and at sea -/
+theorem eel_moves_iff (ingrid atsea : β → β → Bool) (x0 y0 x y : β) :
+    eelStep ingrid atsea x0 y0 x y = if (ingrid x y && atsea x y) = true then (x, y) else (x0, y0) := rfl
+
+theorem eel_never_onto_land_or_out (ingrid atsea : β → β → Bool) (x0 y0 x y : β)
+    (h0 : ingrid x0 y0 = true ∧ atsea x0 y0 = true) :
+    let p := eelStep ingrid atsea x0 y0 x y
+    ingrid p.1 p.2 = true ∧ atsea p.1 p.2 = true := by
+  unfold eelStep
+  by_cases h : (ingrid x y && atsea x y) = true
+  · simp only [h, if_true]
+    simpa using h
+  · simp only [h]
+    exact h0
+
+/-- non-vacuity: a 1-D coast (sea for x < 3, grid 0..5): swimming to 2 succeeds, to 4 (land) and to 7 (outside)
+does not, and only the last retires the larva -/
+example : saitheStep (fun x _ => decide (x < (6:Int))) (fun x _ => decide (x < 3)) 1 0 2 0 = (2, 0, true)
+    ∧ saitheStep (fun x _ => decide (x < (6:Int))) (fun x _ => decide (x < 3)) 1 0 4 0 = (1, 0, true)
+    ∧ saitheStep (fun x _ => decide (x < (6:Int))) (fun x _ => decide (x < 3)) 1 0 7 0 = (1, 0, false) := by decide
+
+end swim
 
 end C11
